@@ -14,7 +14,8 @@ def run(rep, tier, seed):
     v2 = native.run('k_traverse', 'validate_ranks', {})
     if v2['n_bad'] or v2['nodes'] < 20:
         rep.checker_error(f'rank tables disagree with CPython positions: {v2}')
-    verify_all(rep, specs + k_traverse.special_specs('C14') + k_traverse.soc_specs('C14'))
+    verify_all(rep, specs + k_traverse.special_specs('C14') + k_traverse.soc_specs('C14') +
+               k_traverse.merge_specs('C14'))
     rep.extra['not_proved'] = notes
     k_traverse.all_param_finite(rep, 'C14')
     rep.trusted.append('ORDER table (syntactic field order per AST class) written from the grammar; validated against '
@@ -23,7 +24,9 @@ def run(rep, tier, seed):
                                         'interleave': 4 if tier == 'quick' else 5}, timeout=7200)
     sec['native_entry'] = ('b_read', 'replay')
     rep.bounded(sec)
-    rep.remainder = ('the walk generator itself and the position-merging step functions of Call / ClassDef (Dict / '
-                     'MatchMapping / Compare / arguments ARE proved, by the rank-order specification): bounded stand-in '
-                     'only - exhaustive over every argument-like sequence CPython accepts up to length 4 (quick) / 5 '
-                     '(thorough) for calls and class bases, plus the corpus')
+    rep.assumptions.append('Call / ClassDef merge functions: both merged lists sorted by position, positions pairwise '
+                           'distinct, a non-starred positional precedes every keyword (Python call syntax) - '
+                           'well-formedness of a tree parsed from valid source, instantiated at every index the execution '
+                           'and the contract name')
+    rep.remainder = ('the walk generator itself (walk modes, step_*, paths): bounded stand-in; the generated programs of every '
+                     'argument-like sequence up to length 4 / 5 remain as a cross-check of the merge-function proof')
